@@ -721,9 +721,21 @@ def r4(ctx):
                 'transition iteration: sum_i s_i x_i must equal 1 after every '
                 'update', key=it.full + ' | mass conservation iteration')
     # the returned triple is the updated one, in subchannel-type order
+    # (decided on the value: the returned expression, expanded at the return
+    # statement down to the ratios x1x2 / x3x2, equals the three updates)
     rets = [r for r in ast.walk(it.node) if isinstance(r, ast.Return)]
-    ctx.require(len(rets) == 1 and src(rets[0].value) ==
-                '(x1_new, x2_new, x3_new)', 'C12.R4', it,
+    ret_ok = len(rets) == 1 and rets[0].value is not None
+    if ret_ok:
+        rv = U.value_at(it.node, rets[0].value, rets[0].lineno,
+                        keep=tuple(it.params) + ('x1x2', 'x3x2'))
+        ret_ok = isinstance(rv, ast.Tuple) and len(rv.elts) == 3
+        if ret_ok:
+            try:
+                ret_ok = all(conv(e_, at, {}).equals(upd[k_]) for e_, k_ in
+                             zip(rv.elts, ('x1_new', 'x2_new', 'x3_new')))
+            except NotPolynomial:
+                ret_ok = False
+    ctx.require(ret_ok, 'C12.R4', it,
                 rets[0] if rets else it.node,
                 'iteration returns (interior, edge, corner) of the last '
                 'update', key=it.full + ' | return order')
